@@ -765,6 +765,8 @@ class Converter:
             # Edge case: no index specified. Eg. A[:, :]
             return self._emit1([target], "Identity", [var_name])
 
+        # Axes removed by the Squeeze below: they shift the numbers of the axes behind them.
+        removed_axes: list[int] = []
         if sliced_indices or len(scalar_indices) > 1:
             # We emit a Slice operation if we have any indices like 1:5:2 or if the number of
             # scalar indices (like 2) is more than 1.
@@ -823,6 +825,7 @@ class Converter:
                     "Slice",
                     [var, start_value, end_value, axes_value, steps_value],
                 )
+                removed_axes = squeezed_axes
                 squeezed_axes = self._emit_const(squeezed_axes, "squeezed_axes", info)
 
                 if non_scalar_indices:  # use temporary to store result of squeeze
@@ -841,6 +844,9 @@ class Converter:
         else:
             result = var
         non_scalar_indices.extend(scalar_indices)
+        # A Gather leaves the axes in front of its axis in place whatever the rank of the index,
+        # so the remaining indices are applied from the last axis to the first.
+        non_scalar_indices.sort(key=lambda axis_and_expr: axis_and_expr[0], reverse=True)
         if non_scalar_indices:
             last_axis, _ = non_scalar_indices[-1]
         else:
@@ -848,7 +854,7 @@ class Converter:
             last_axis = None
         for axis, index_expr in non_scalar_indices:
             index_value = self._translate_expr(index_expr)
-            axis_attr = ir.AttrInt64("axis", axis)
+            axis_attr = ir.AttrInt64("axis", axis - sum(1 for a in removed_axes if a < axis))
             # use Gather to perform indexing
             # Assign gathered value to either temporary or final target
             if axis != last_axis:  # use temporary to store result of Gather
